@@ -178,14 +178,11 @@ func c18(c *an.Ctx) {
 		// on the nil path: return nil, no dest use, no inner call
 		blk := an.NewBlocker()
 		nIf := 0
-		for _, ci := range an.CondIfs(cl, func(v ssa.Value) bool {
-			bo, ok := v.(*ssa.BinOp)
-			return ok && bo.Op == token.EQL && bo.X == ssa.Value(value) && isConstNil(bo.Y)
-		}) {
-			blk.AddEdge(ci.If.Block(), ci.False)
+		for _, nt := range an.NilTestsWhere(cl, func(v ssa.Value) bool { return v == ssa.Value(value) }) {
+			blk.AddEdge(nt.If.Block(), nt.NonNil)
 			nIf++
-			if !isReturnNil(cl, ci.True) {
-				o.FailAt(ci.If, "%s: a nil (absent) value does not simply return nil", name)
+			if !isReturnNil(cl, nt.NilSucc) {
+				o.FailAt(nt.If, "%s: a nil (absent) value does not simply return nil", name)
 			}
 		}
 		if nIf == 0 {
